@@ -52,7 +52,7 @@ class EstimatorMonitor:
         self.obs = dict(estimator_comparisons=0, hook_calls=0, posterior_comparisons=0, proposal_count_checks=0,
                         transfers=0, shells_with_count_lt_proposals_max=0, discarded_view_comparisons=0,
                         empty_view_comparisons=0, neg_inf_samples_max=0, checks_on_resume=0, checks_after_toggle=0,
-                        max_bounds=0)
+                        max_bounds=0, empty_shells_removed=0)
         self.driver = None
         self._n_sample_before = None
         self.batches = 0
@@ -65,6 +65,9 @@ class EstimatorMonitor:
     def check(self, s, where, with_posterior=False):
         self.obs['hook_calls'] += 1
         nb = len(s.bounds)
+        if nb < getattr(self, '_nb_last', 0) and s.explored:
+            self.obs['empty_shells_removed'] += self._nb_last - nb
+        self._nb_last = nb
         self.obs['max_bounds'] = max(self.obs['max_bounds'], nb)
         if nb == 0:
             return
